@@ -13,6 +13,9 @@ HEADER = ("From Coq Require Import List Arith ZArith Bool.\nFrom SC Require Impo
 T = {"VALIDATE": 1, "LOAD": 2, "BODY": 3, "SAVE": 4, "BUFLOAD": 5, "BUFSAVE": 6, "FLUSH": 7, "SETNAME": 8}
 
 
+BLOCKED_SEEN = [0]
+
+
 class LogLock:
     def __init__(self, name, log):
         self.l = threading.RLock()
@@ -273,12 +276,15 @@ def run_one(ns, clsname, flavor, kind, faults, tmp, tag):
         probes = [(other, (y, "same file"), "same file"), (other, (z, "other file"), "other file")]
         if kind not in ("KExitCls",):
             probes.append((same_object, (), "same object"))
+        if BLOCKED_SEEN[0] >= 6:
+            probes = []          # enough stuck probes reported already: do not wait 3 s for each remaining case
         for fn_, args_, name in probes:
             th = threading.Thread(target=fn_, args=args_, daemon=True)
             th.start()
             th.join(3)
             if th.is_alive():
                 stuck.append(f"{name}: blocked (lock still held)")
+                BLOCKED_SEEN[0] += 1
         held = {}
         for kind_, name in events:
             held[name] = held.get(name, 0) + (1 if kind_ == "acq" else -1)
